@@ -6,15 +6,15 @@ import (
 	"context"
 	"errors"
 	"fmt"
-	"net"
-	"os"
 	"io"
+	"net"
 	"net/netip"
+	"os"
 	"runtime"
 	"strings"
-	"syscall"
 	"sync"
 	"sync/atomic"
+	"syscall"
 	"testing"
 	"testing/synctest"
 	"time"
@@ -34,10 +34,11 @@ type epEvent struct {
 	X   any    `json:"x"`
 	Res string `json:"res"`
 	Obs struct {
-		Dials  int                       `json:"dials"`
-		Closed []int                     `json:"closed"`
-		Retain map[string]map[string]int `json:"retain"`
-		Pool   map[string]int            `json:"pool"`
+		Dials   int                       `json:"dials"`
+		Closed  []int                     `json:"closed"`
+		Retain  map[string]map[string]int `json:"retain"`
+		Pool    map[string]int            `json:"pool"`
+		Tickets map[string]int            `json:"tickets"`
 	} `json:"obs"`
 }
 type epBehaviour struct {
@@ -86,12 +87,12 @@ func (c *epConn) SetReadDeadline(time.Time) error  { return nil }
 func (c *epConn) SetWriteDeadline(time.Time) error { return nil }
 
 type epDialer struct {
-	mu    sync.Mutex
-	dials int
-	fail  bool
-	script []string     // outcomes of the next dial attempts ("unreach" | "fail" | "ok"); then `fail` decides
-	gate  chan struct{} // non-nil: the dial waits here (slow dial)
-	conns []*epConn
+	mu     sync.Mutex
+	dials  int
+	fail   bool
+	script []string      // outcomes of the next dial attempts ("unreach" | "fail" | "ok"); then `fail` decides
+	gate   chan struct{} // non-nil: the dial waits here (slow dial)
+	conns  []*epConn
 }
 
 func (d *epDialer) DialContext(ctx context.Context, network, addr string) (netproxy.Conn, error) {
@@ -184,19 +185,21 @@ func epRunOne(b *epBehaviour, res *verifutil.Result) {
 	}
 	owners := map[string]*epOwner{"o1": {held: map[bpfTuplesKey]int{}}, "o2": {held: map[bpfTuplesKey]int{}}}
 	tupleDst := map[string]netip.AddrPort{"t1": netip.MustParseAddrPort("203.0.113.1:7000"), "t2": netip.MustParseAddrPort("203.0.113.2:7000")}
+	trackers := map[string]*controlPlaneDrainTracker{"o1": newControlPlaneDrainTracker(), "o2": newControlPlaneDrainTracker()}
 	opts := func(o string) *UdpEndpointOptions {
 		return &UdpEndpointOptions{
 			Handler:        func(*UdpEndpoint, []byte, netip.AddrPort) error { return nil },
 			NatTimeout:     30 * time.Second,
 			ConnStateOwner: owners[o],
+			DrainTracker:   trackers[o],
 			Log:            log,
 			GetDialOption: func(context.Context) (*DialOption, error) {
 				return &DialOption{Target: dst.String(), Dialer: d, Network: "udp", NetworkType: nt}, nil
 			},
 		}
 	}
-	eps := map[int]*UdpEndpoint{}   // model id -> endpoint
-	conns := map[int]*epConn{}      // model id -> transport
+	eps := map[int]*UdpEndpoint{} // model id -> endpoint
+	conns := map[int]*epConn{}    // model id -> transport
 	ids := map[*UdpEndpoint]int{}
 	next := 0
 	var trail []string
@@ -410,6 +413,24 @@ func epRunOne(b *epBehaviour, res *verifutil.Result) {
 					fail("|kernel", "owner %s holds kernel entry %s %d times, expected %d (exactly once per live endpoint that registered it, moved on adoption, released when the endpoint goes away)", on, tn, got, want)
 					return
 				}
+			}
+		}
+		for on, tr := range trackers {
+			want, known := ev.Obs.Tickets[on]
+			res.Eval(1)
+			if got := tr.Count(); known && got != want {
+				fail("|drain", "generation %s counts %d live sessions, expected %d (one per live endpoint it owns: taken at the dial, handed over on adoption, given back at the close)", on, got, want)
+				return
+			}
+			idle := false
+			select {
+			case <-tr.IdleCh():
+				idle = true
+			default:
+			}
+			if known && idle != (want == 0) {
+				fail("|drain", "generation %s: drained=%v with %d live sessions expected", on, idle, want)
+				return
 			}
 		}
 		for kn, k := range keys {
